@@ -140,7 +140,7 @@ def _lit_bool(n):
     return None
 
 
-def kind_filter(cond, all_kinds, fx=None, depth=0, adt=None):
+def kind_filter(cond, all_kinds, fx=None, depth=0, adt=None, lets=None):
     """The set of execution-error kinds for which `cond` is true, or None if cond is not a pure test of the kind.
     Understands `matches!(e, A | B)` (a match with boolean arms), negation, || and &&, and calls of local predicate
     functions whose body is such a test (e.g. `Error::is_jump_target_error`)."""
@@ -155,12 +155,15 @@ def kind_filter(cond, all_kinds, fx=None, depth=0, adt=None):
             break
     k = c.get("k")
     allk = set(all_kinds)
+    if k == "Path" and c.get("res") == "local" and lets and c.get("local") in lets and depth < 6:
+        # a let-bound test (`let is_x = matches!(..); if !is_x { .. }`)
+        return kind_filter(lets[c["local"]], all_kinds, fx, depth + 1, adt, lets)
     if k == "Unary" and c.get("op") == "Not":
-        r = kind_filter(c["e"], all_kinds, fx, depth, adt)
+        r = kind_filter(c["e"], all_kinds, fx, depth, adt, lets)
         return None if r is None else allk - r
     if k == "Binary" and c.get("op") in ("Or", "And"):
-        l = kind_filter(c["l"], all_kinds, fx, depth, adt)
-        r = kind_filter(c["r"], all_kinds, fx, depth, adt)
+        l = kind_filter(c["l"], all_kinds, fx, depth, adt, lets)
+        r = kind_filter(c["r"], all_kinds, fx, depth, adt, lets)
         if l is None or r is None:
             return None
         return (l | r) if c["op"] == "Or" else (l & r)
@@ -216,6 +219,11 @@ def arm_kinds(ps, all_kinds, with_implied=False, fx=None):
     reach the node only when the permissive flag is off (they were intercepted by an earlier arm guarded by the flag)."""
     kinds = None
     implied = set()
+    lets = {}
+    if ps:
+        for n_, _ in F.walk(ps[0][0]):
+            if isinstance(n_, dict) and n_.get("s") == "Let" and "init" in n_ and n_.get("els") is None and isinstance(n_.get("pat"), dict) and n_["pat"].get("p") == "Bind" and (n_["pat"].get("ty") or "bool") == "bool":
+                lets[n_["pat"]["local"]] = n_["init"]
     for i, (anc, key) in enumerate(ps):
         if "pat" in anc and "body" in anc and key == "body" and i > 0 and ps[i - 1][0].get("k") == "Match":
             m = ps[i - 1][0]
@@ -245,7 +253,7 @@ def arm_kinds(ps, all_kinds, with_implied=False, fx=None):
                     implied = imp & kinds
         # `if <kind test> { .. } else { .. }` around the node
         if anc.get("k") == "If" and key in ("then", "else"):
-            f = kind_filter(anc["cond"], all_kinds, fx)
+            f = kind_filter(anc["cond"], all_kinds, fx, 0, None, lets)
             if f is not None:
                 f = f if key == "then" else set(all_kinds) - f
                 kinds = f if kinds is None else kinds & f
@@ -261,7 +269,7 @@ def arm_kinds(ps, all_kinds, with_implied=False, fx=None):
                 if e is not None and e.get("k") == "DropTemps":
                     e = e["e"]
                 if e is not None and e.get("k") == "If" and "else" not in e and _diverges(e["then"]):
-                    f = kind_filter(e["cond"], all_kinds, fx)
+                    f = kind_filter(e["cond"], all_kinds, fx, 0, None, lets)
                     if f is not None:
                         f = set(all_kinds) - f
                         kinds = f if kinds is None else kinds & f
